@@ -43,14 +43,32 @@ type Server struct {
 	conn     *grpc.ClientConn
 }
 
+// freePort hands out loopback ports from a range private to this process
+// (several shards start servers at the same time: asking the kernel for an
+// ephemeral port and releasing it again races with the other shards).
+var portBase, portNext int
+
 func freePort() string {
-	l, err := net.Listen("tcp", "127.0.0.1:0")
-	if err != nil {
-		panic(err)
+	if portBase == 0 {
+		portBase = 21000 + (os.Getpid()%900)*40
 	}
-	a := l.Addr().String()
-	l.Close()
-	return a
+	for i := 0; i < 4000; i++ {
+		p := portBase + portNext%40
+		portNext++
+		if portNext%40 == 0 {
+			portBase += 40 * 901
+			if portBase > 60000 {
+				portBase = 21000 + (os.Getpid()%900)*40
+			}
+		}
+		l, err := net.Listen("tcp", fmt.Sprintf("127.0.0.1:%d", p))
+		if err != nil {
+			continue
+		}
+		l.Close()
+		return fmt.Sprintf("127.0.0.1:%d", p)
+	}
+	panic("no free port")
 }
 
 func NewServer(dir string, extra ...string) *Server {
@@ -110,7 +128,18 @@ func (s *Server) Start() error {
 		if err == nil {
 			io.Copy(io.Discard, res.Body)
 			res.Body.Close()
-			return nil
+			ok := true
+			for _, a := range []string{s.grpcAddr, s.pollAddr} {
+				c, err := net.DialTimeout("tcp", a, time.Second)
+				if err != nil {
+					ok = false
+				} else {
+					c.Close()
+				}
+			}
+			if ok {
+				return nil
+			}
 		}
 		time.Sleep(20 * time.Millisecond)
 	}
